@@ -30,7 +30,7 @@ CONF = {
     "C03": (["space", "pretty", "crlf", "mixed"], 2, 0),
     "C04": (["space", "crlf", "mixed", "mlcomment"], 2, 0),
     "C07": (["space", "upper", "mixed", "lines"], 2, 1),
-    "C18": (["lines", "crlf", "mlcomment", "space", "compact"], 3, 2),
+    "C18": (["lines", "crlf", "mlcomment", "space", "compact"], 2, 2),
 }
 
 
